@@ -3,3 +3,4 @@ import ThaiLintModel.Core.Glob
 import ThaiLintModel.Core.GlobLemmas
 import ThaiLintModel.C01.Props
 import ThaiLintModel.C14.Props
+import ThaiLintModel.C15.Props
